@@ -471,6 +471,21 @@ def check_recurrence(ctx, kind, text, nmax):
     got = res[1].split("\n") if res[1] else []
     if got != want:
         ctx.violation("recurrence_points", sig, case, want, got)
+    # with a print format every point is printed in that format (ISO notation or strftime), still one per line
+    if nmax in (2, 3) and kind == "greg":
+        from metomi.isodatetime.dumpers import TimePointDumper
+        for fmt in ("CCYY-MM-DD", "CCYYDDDThhmmZ", "%Y/%m/%d %H:%M", "CCYY-Www-DThh:mm:ss+hh:mm"):
+            ctx.transitions += 1
+            resf = run_main(argv + ["-f", fmt])
+            with environment():
+                pts = list(itertools.islice(iter(rec), n))
+                try:
+                    wantf = [p.strftime(fmt) if "%" in fmt else TimePointDumper().dump(p, fmt) for p in pts]
+                except ValueError:
+                    wantf = None
+            if wantf is not None and resf != ("out", "\n".join(wantf)):
+                ctx.violation("recurrence_print_format", dict(sig, fmt=fmt), lambda: {"kind": "recurrence", "mode": kind, "argv": argv + ["-f", fmt]},
+                              wantf, list(resf))
     ctx.outcome("lines", len(got))
     # for exact intervals the printed points are also judged by M: anchor + k * interval, in order
     spec = REC_EXACT.get(text)
@@ -522,7 +537,7 @@ def run_unit(unit, ctx):
     elif u == "recurrence":
         kind = unit[1]
         for text in REC_ITEMS:
-            for nmax in (None, 1, 2, 3, 10, 11):
+            for nmax in (None, 0, 1, 2, 3, 10, 11):
                 ctx.state_count += 1
                 check_recurrence(ctx, kind, text, nmax)
     elif u == "options":
